@@ -22,7 +22,7 @@ class Spec(core.PropSpec):
                    "'differently seeded per rank' is only asserted where the stream carries >= 40 bits of entropy"]
     components = {"real": ["ClassBalancedSampler", "SemiSampler", "WeightedSampler", "kappadata.utils.getall_as_tensor"],
                   "stub": ["rank processes (SimProcess)", "label datasets (harness)"]}
-    tiers = {"quick": dict(runs=16000, budget_s=40), "thorough": dict(runs=800000, budget_s=600)}
+    tiers = {"quick": dict(runs=12000, budget_s=40), "thorough": dict(runs=800000, budget_s=600)}
 
     def gen_plan(self, seed, tier):
         return CL.gen_plan(seed, ["cb", "cb", "semi", "semi", "weighted"], big=tier != "quick")
